@@ -317,10 +317,39 @@ def rule_r3(F, rep):
     if not ok:
         rep.violation(R, "EqualsValue|String", "string equality uses %s instead of str equality" % sorted(c))
     c, _ = collect("EqualsValue", "Number")
-    ok = not c
-    rep.ob(R, "EqualsValue|Number", ok, {"calls": sorted(c), "note": "primitive f64 == (MIR BinaryOp Eq)"})
+    # ... and the only floating-point operation on the path is the primitive `==` of the two payloads
+    fops = set()
+    body = run.body
+
+    def after(w, bb, idx, st, env):
+        rv = st["rv"]
+        if rv["k"] == "binop":
+            ta = w.body.ty(rv["a"]["t"])["s"] if "t" in rv["a"] else ""
+            if ta == "f64":
+                fops.add(rv["op"])
+        elif rv["k"] == "unop" and "t" in rv["a"] and w.body.ty(rv["a"]["t"])["s"] == "f64":
+            fops.add(rv["op"])
+
+    def stop(w, bb, t, env):
+        if t["k"] == "call":
+            n = callee_name(t) or ""
+            if n == "<%s>::maybe_gc" % em.PROGRAM:
+                return kwalk.STOP
+            if "f64" in n and ("::abs" in n or "::max" in n or "::min" in n or "total_cmp" in n or "to_bits" in n):
+                fops.add("call:" + n.rsplit("::", 1)[1])
+        return None
+    m = em.Marker(F, body, 1, False, extra_term=stop)
+    m.stop_on_limit = True
+    w = kwalk.Walker(F, body, on_term=m.on_term, on_stmt=m.on_stmt, after_stmt=after,
+                     call_result=em.injector(F, body, values=["Number", "Number"], state="EqualsValue"), want_ret=True)
+    w.run(0, {})
+    rep.states += w.states_explored
+    ok = not c and fops == {"Eq"}
+    rep.ob(R, "EqualsValue|Number", ok, {"calls": sorted(c), "f64_operations": sorted(fops)})
     if not ok:
-        rep.violation(R, "EqualsValue|Number", "number equality calls %s instead of primitive ==" % sorted(c))
+        rep.violation(R, "EqualsValue|Number", "number equality is computed with %s / %s instead of the primitive f64 `==` alone "
+                      "(a tolerance or a different comparison breaks transitivity and agreement with the ordering)"
+                      % (sorted(c), sorted(fops)))
     rep.trust("std: <f64 as PartialOrd>::partial_cmp, <str as Ord>::cmp (byte-wise = code-point order for UTF-8)")
 
 
